@@ -15,6 +15,9 @@ SOLVERS = {
     "cvc5-1.0": lambda f, t: ["/usr/bin/cvc5", "--tlimit=%d" % (t * 1000), "--produce-models", f],
 }
 
+FAST_FIRST = "z3-4.8.12"
+FAST_TIMEOUT = 2
+
 CACHE_DIR = os.path.join(os.path.dirname(os.path.dirname(os.path.abspath(__file__))), ".cache")
 _cache_lock = threading.Lock()
 _cache = None
@@ -86,7 +89,7 @@ def parse_value(val):
     return None
 
 
-def run_portfolio(text, timeout=20, solvers=None, want_model=True, need=1, use_cache=None):
+def run_portfolio(text, timeout=20, solvers=None, want_model=True, need=1, use_cache=None, fast=False):
     """Race the solvers on `text` (an SMT-LIB script ending in (check-sat)).
     Returns Result.  need = number of solvers that must agree on a definite answer before
     the race stops (1 for quick, 2 for thorough)."""
@@ -98,6 +101,14 @@ def run_portfolio(text, timeout=20, solvers=None, want_model=True, need=1, use_c
             c = _load_cache().get(h)
         if c is not None and c["status"] in ("unsat",) and c.get("need", 1) >= need:
             return Result(c["status"], c["solver"], 0.0, per_solver=c.get("per_solver", {}), cached=True)
+    if fast and solvers is None and need == 1 and FAST_FIRST and len(text) < 400000:
+        # most obligations are easy: ask one solver first (a third of the processes), race all three only if it
+        # does not answer quickly
+        r = run_portfolio(text, timeout=FAST_TIMEOUT, solvers=[FAST_FIRST], want_model=want_model, need=1, use_cache=False)
+        if r.status in ("unsat", "sat"):
+            if r.status == "unsat":
+                _store_cache(h, {"h": h, "status": "unsat", "solver": r.solver, "need": 1, "per_solver": r.per_solver})
+            return r
     solvers = solvers or list(SOLVERS)
     fd, path = tempfile.mkstemp(suffix=".smt2", prefix="govc_")
     full = text
